@@ -117,6 +117,8 @@ pub struct Machine {
     pub stack: [u64; N_STACK],
     pub sp: usize,
     pub stack_fault: bool,
+    /// a block's `options(..)` promise something its instructions break (see `opt_rule`)
+    pub opt_fault: bool,
     pub log: [Event; N_LOG],
     pub nlog: usize,
     pub log_overflow: bool,
@@ -156,6 +158,7 @@ pub const RESET: Machine = Machine {
     stack: [0; N_STACK],
     sp: 0,
     stack_fault: false,
+    opt_fault: false,
     log: [NO_EVENT; N_LOG],
     nlog: 0,
     log_overflow: false,
@@ -197,7 +200,7 @@ impl Machine {
             && self.mxcsr == o.mxcsr
     }
     pub fn clean(&self) -> bool {
-        !self.unexpected_msr && !self.unexpected_xcr && !self.stack_fault && !self.log_overflow
+        !self.unexpected_msr && !self.unexpected_xcr && !self.stack_fault && !self.opt_fault && !self.log_overflow
     }
     fn ev(&mut self, kind: u8, a: u64, b: u64, c: u64, opts: u8) {
         if self.nlog < N_LOG {
@@ -205,6 +208,20 @@ impl Machine {
             self.nlog += 1;
         } else {
             self.log_overflow = true;
+        }
+    }
+    /// What `options(..)` may not promise for an instruction: `kind` 0 = the instruction writes memory (no `nomem`,
+    /// no `readonly`), 1 = it reads memory (no `nomem`), 2 = it invalidates translations, so the compiler must not
+    /// move page-table stores across it (no `nomem`, `readonly` or `pure`: the block has to be a memory barrier).
+    /// The unchanged crate satisfies all three (`tlbsync`, which upstream marks `nomem`, is not subject to rule 2).
+    fn opt_rule(&mut self, kind: u8, o: u8) {
+        let bad = match kind {
+            0 => o & (OPT_NOMEM | OPT_READONLY | OPT_PURE) != 0,
+            1 => o & OPT_NOMEM != 0,
+            _ => o & (OPT_NOMEM | OPT_READONLY | OPT_PURE) != 0,
+        };
+        if bad {
+            self.opt_fault = true;
         }
     }
     pub fn begin_block(&mut self) {
@@ -263,6 +280,9 @@ impl Machine {
         v
     }
     pub fn mov_to_cr(&mut self, n: usize, v: u64, o: u8) {
+        if n == 3 {
+            self.opt_rule(2, o); // a CR3 load flushes the TLB
+        }
         self.cr[n] = v;
         self.ev(EV_MOV_TO_CR, n as u64, v, 0, o);
     }
@@ -408,34 +428,41 @@ impl Machine {
     }
     /// LGDT/LIDT m16&64: limit = bytes 0-1, base = bytes 2-9 of the operand (SDM vol.2A LGDT/LIDT)
     pub fn lgdt(&mut self, addr: u64, o: u8) {
+        self.opt_rule(1, o);
         let (limit, base) = read_pseudo_descriptor(addr);
         self.gdtr_base = base;
         self.gdtr_limit = limit;
         self.ev(EV_LGDT, addr, base, limit as u64, o);
     }
     pub fn lidt(&mut self, addr: u64, o: u8) {
+        self.opt_rule(1, o);
         let (limit, base) = read_pseudo_descriptor(addr);
         self.idtr_base = base;
         self.idtr_limit = limit;
         self.ev(EV_LIDT, addr, base, limit as u64, o);
     }
     pub fn sgdt(&mut self, addr: u64, o: u8) {
+        self.opt_rule(0, o);
         write_pseudo_descriptor(addr, self.gdtr_limit, self.gdtr_base);
         self.ev(EV_SGDT, addr, 0, 0, o);
     }
     pub fn sidt(&mut self, addr: u64, o: u8) {
+        self.opt_rule(0, o);
         write_pseudo_descriptor(addr, self.idtr_limit, self.idtr_base);
         self.ev(EV_SIDT, addr, 0, 0, o);
     }
     pub fn invlpg(&mut self, addr: u64, o: u8) {
+        self.opt_rule(2, o);
         self.ev(EV_INVLPG, addr, 0, 0, o);
     }
     /// INVPCID r64, m128: descriptor = PCID in bits 0-11 of the first qword, linear address in the second
     pub fn invpcid(&mut self, kind: u64, desc_addr: u64, o: u8) {
+        self.opt_rule(2, o);
         let d = unsafe { core::ptr::read_unaligned(desc_addr as *const [u64; 2]) };
         self.ev(EV_INVPCID, kind, d[0], d[1], o);
     }
     pub fn invlpgb(&mut self, rax: u64, ecx: u32, edx: u32, o: u8) {
+        self.opt_rule(2, o);
         if self.n_invlpgb >= self.invlpgb_limit {
             cut_path();
         }
@@ -501,10 +528,12 @@ impl Machine {
         self.op_popfq(o);
     }
     pub fn stmxcsr(&mut self, addr: u64, o: u8) {
+        self.opt_rule(0, o);
         unsafe { core::ptr::write_unaligned(addr as *mut u32, self.mxcsr) };
         self.ev(EV_STMXCSR, addr, self.mxcsr as u64, 0, o);
     }
     pub fn ldmxcsr(&mut self, addr: u64, o: u8) {
+        self.opt_rule(1, o);
         self.mxcsr = unsafe { core::ptr::read_unaligned(addr as *const u32) };
         self.ev(EV_LDMXCSR, addr, self.mxcsr as u64, 0, o);
     }
